@@ -569,6 +569,17 @@ func c18Compare(p *chk.Prog, r *chk.Report) {
 			}
 			x.Check(c.name+":remembered-changes-only-with-the-handler", st.Pos(), okW, "", "the remembered configuration is reset or replaced outside the handler's outcome (on a rejected snapshot, say): the next snapshot that equals what is applied is no longer recognised as unchanged and the handler - a full re-sync of all Services - runs for nothing")
 		}
+		if c.pool && len(handlers) == 1 {
+			// ... and what the handler accepted (any answer but the two error answers: success, or "re-sync everything",
+			// which is what the controller's pool handler always answers) is remembered: otherwise every later event finds
+			// a difference and re-delivers the pools with a full re-sync of the Services
+			errNR := g.GPat(true, "T == C", chk.H("C", isObjNamed(f, ctrlPkg+".SyncStateErrorNoRetry")))
+			commit := f.IsAssignPat("R.currentConfig", "C", chk.H("C", cfg))
+			w := (&chk.Walk{G: g, From: handlers[0], Stop: commit,
+				Hit: func(n ast.Node) bool { _, isRet := n.(*ast.ReturnStmt); return isRet },
+				Cut: func(b *cfgBlock, k int) bool { return g.EdgeImplies(b, k, errG) || g.EdgeImplies(b, k, errNR) }}).Run()
+			x.Check(c.name+":accepted-config-remembered", posOf(w, f), !w.Found, "", "a configuration the handler accepted (answering success or a full re-sync) is not remembered as current: the comparison never matches again and every unrelated event reloads the pools and re-syncs every Service")
+		}
 		if c.pool {
 			// the commit happens only after the handler was called
 			for _, s := range g.Find(f.IsAssignPat("R.currentConfig", "C", chk.H("C", cfg))) {
